@@ -1,7 +1,10 @@
 package hx
 
 import (
+	"encoding/json"
 	"fmt"
+	"sort"
+	"strings"
 	"time"
 )
 
@@ -10,9 +13,9 @@ import (
 // ---------------------------------------------------------------------------------------------
 
 type corpusCase struct {
-	ID    string
-	In    FedInput
-	Note  string
+	ID   string
+	In   FedInput
+	Note string
 }
 
 func fixedIn(q string) FedInput { return FedInput{Spec: FixedFed(), StoreSeed: 5, Query: q} }
@@ -21,7 +24,7 @@ func withVars(in FedInput, op string, vars map[string]interface{}) FedInput {
 	in.OpName, in.Vars = op, vars
 	return in
 }
-func withOdd(in FedInput) FedInput { in.OddIDs = true; return in }
+func withOdd(in FedInput) FedInput               { in.OddIDs = true; return in }
 func withPrio(in FedInput, p ...string) FedInput { in.Spec.Priorities = p; return in }
 
 // FedCorpus: minimised past failures (DESIGN §8); they always run first.
@@ -83,7 +86,7 @@ func (c01) Cases(tier string) int {
 }
 
 func (c01) Rule() string {
-	return "L2.point: 10 point strings per case (rendered `key[:index][#id]` with ids containing the separators, and arbitrary strings over the separators) through executorGetPointData / isListElement and Pt.parsePoint / Pt.isListElement; corpus of minimised past failures, then random federations (monolith schema partitioned over 2-4 services, fields homed at 1-2 services, optional priorities) x random data graphs (nulls, empty/long lists, cycles, ids with ':' '#' space, non-ASCII) x type-directed queries (aliases, inline/untyped/named fragments, @skip/@include literal and variable, __typename, node(id)); every 20th generated case a three-level plan under a list of 40-160 elements, executed 4 times; a case is non-trivial when the gateway made at least 2 service calls; distinct = distinct (federation, query) text; inputs in open known-finding regions are excluded from the random stream and exercised through their canonical replay"
+	return "L2.point: 10 point strings per case (rendered `key[:index][#id]` with ids containing the separators, and arbitrary strings over the separators) through executorGetPointData / isListElement and Pt.parsePoint / Pt.isListElement; corpus of minimised past failures, then random federations (monolith schema partitioned over 2-4 services, fields homed at 1-2 services, optional priorities) x random data graphs (nulls, empty/long lists, cycles, ids with ':' '#' space, non-ASCII) x type-directed queries (aliases, inline/untyped/named fragments, @skip/@include literal and variable, __typename, node(id)); every fourth case is also sent through GraphQLHandler and the body compared with what Execute returned; every 20th generated case a three-level plan under a list of 40-160 elements, executed 4 times; a case is non-trivial when the gateway made at least 2 service calls; distinct = distinct (federation, query) text; inputs in open known-finding regions are excluded from the random stream and exercised through their canonical replay"
 }
 
 // GenFedInput draws a random federated input for case i.
@@ -240,6 +243,12 @@ func (c01) Run(c *Ctx, i int) CaseResult {
 				Observed: map[string]interface{}{"data": again.Out.Data, "error": ErrString(again.Out.Err), "plan": PlanText(again.Out.Plans)}})
 		}
 	}
+	if len(res.Fails) == 0 && i%4 == 1 && repeat == 0 && !fc.Out.PlanErr && !fc.Out.PlanHung && !fc.Out.Hung && fc.Out.Panicked == nil {
+		// the same request through the HTTP handler: what the client is sent is what the execution returned
+		if hf := HTTPSameFail(in, fc); hf != nil {
+			res.Fails = append(res.Fails, *hf)
+		}
+	}
 	if len(res.Fails) == 0 && i%3 == 0 && repeat == 0 && !fc.Out.PlanErr && !fc.Out.PlanHung && !fc.Out.Hung && fc.Out.Panicked == nil {
 		// L2: the executor's data path (join ids, node stripping, insertion points, stitching) against the executor model
 		xf, note := ExecCorr(c, in)
@@ -257,6 +266,45 @@ func (c01) Run(c *Ctx, i int) CaseResult {
 		res.Sample = map[string]interface{}{"query": in.Query, "services": in.Spec.Order, "priorities": in.Spec.Priorities, "vars": in.Vars, "calls": fc.Fed.TotalCalls()}
 	}
 	return res
+}
+
+// HTTPSameFail sends the case's request through GraphQLHandler (a fresh gateway over the same store) and compares the
+// body with what Gateway.Execute returned for it: the same data, the same error messages
+func HTTPSameFail(in FedInput, fc *FedCase) *Failure {
+	f, err := NewFed(in.Spec, fc.Store)
+	if err != nil {
+		return nil
+	}
+	body, _ := json.Marshal(map[string]interface{}{"query": in.Query, "variables": in.Vars, "operationName": in.OpName})
+	rec, p := HTTPCase{Method: "POST", Target: "/graphql", ContentType: "application/json", Body: string(body)}.Serve(f.GW)
+	if p != nil {
+		return &Failure{Channel: "crash", Classifier: "unclassified", What: fmt.Sprint("the HTTP handler panicked: ", p), Input: in}
+	}
+	var parsed struct {
+		Data   interface{} `json:"data"`
+		Errors []struct {
+			Message string `json:"message"`
+		} `json:"errors"`
+	}
+	dec := json.NewDecoder(strings.NewReader(rec.Body.String()))
+	dec.UseNumber()
+	if err := dec.Decode(&parsed); err != nil {
+		return &Failure{Channel: "L0.http-same", Classifier: "unclassified", What: "the HTTP body is not JSON: " + firstLine(err.Error()), Input: in, Observed: truncate(rec.Body.String(), 400)}
+	}
+	var msgs []string
+	for _, e := range parsed.Errors {
+		msgs = append(msgs, e.Message)
+	}
+	sort.Strings(msgs)
+	var want interface{}
+	if fc.Out.Data != nil {
+		want = fc.Out.Data
+	}
+	if Canon(parsed.Data) != Canon(want) || fmt.Sprint(msgs) != fmt.Sprint(errMultiset(fc.Out.Err)) {
+		return &Failure{Channel: "L0.http-same", Classifier: fc.Classifier(), What: "the HTTP response differs from what Gateway.Execute returns for the same request: " + diffHint(Canon(want)+fmt.Sprint(errMultiset(fc.Out.Err)), Canon(parsed.Data)+fmt.Sprint(msgs)),
+			Input: in, Expected: map[string]interface{}{"data": fc.Out.Data, "errors": errMultiset(fc.Out.Err)}, Observed: map[string]interface{}{"status": rec.Code, "body": truncate(rec.Body.String(), 600)}}
+	}
+	return nil
 }
 
 func init() { Runners["C01"] = c01{} }
